@@ -21,7 +21,7 @@ def c16(ck):
         return
     ck.trusted = ["Coq 8.16.1 kernel", "tr/addr.py (prefix tables of varlink_connect / Listener::new, activation_listener constants, the environment set by varlink_exec)",
                   "harness/src/bin/h_addr.rs, h_actsrv.rs", "modelled not verified: fork/exec, descriptor passing, sockets (decided by running the transports)"]
-    ck.rule = ("transport in {unix path, unix path;mode=..., unix:@abstract, tcp:127.0.0.1:port, with_activate(cmd), with_bridge(cmd), activation by a foreign activator passing a blocking or an O_NONBLOCK listening socket} x request sequences of C01; environment matrix for "
+    ck.rule = ("transport in {unix path, unix path;mode=..., unix:@abstract, tcp:127.0.0.1:port, tcp:[::1]:port, tcp:localhost:port, with_activate(cmd), with_bridge(cmd), activation by a foreign activator passing a blocking or an O_NONBLOCK listening socket} x request sequences of C01; environment matrix for "
                "LISTEN_FDS / LISTEN_PID / LISTEN_FDNAMES (absent, wrong pid, garbage, 0/1/several descriptors, named / unnamed) against a probing server process; address strings from a "
                "scheme/garbage generator against varlink_connect and Listener::new; every constructor under a 15 s watchdog; non-trivial = all; distinct by case")
     # VH_NOISY: the activated test service logs a line on its standard output and one on its standard error
@@ -33,7 +33,7 @@ def c16(ck):
     allk = [k for k in kinds() if k != "upgrade"]
     for _ in range(4 if quick else 30):
         seqs.append([(rng.choice(allk), rng.choice(list(ALL_FLAGS))) for _ in range(rng.randint(1, 8))])
-    transports = ["unixpath", "unixmode", "unixstale", "unixmodestale", "abstract", "tcp", "activate", "bridge", "foreignact", "foreignactnb"]
+    transports = ["unixpath", "unixmode", "unixstale", "unixmodestale", "abstract", "tcp", "tcp6", "tcphost", "activate", "bridge", "foreignact", "foreignactnb"]
     for si, seq in enumerate(seqs):
         reqs = [make(k, f, {"n": i}) for i, (k, f) in enumerate(seq)]
         s = stream_of(reqs)
@@ -139,6 +139,18 @@ def c16(ck):
                 if not ok2:
                     ck.failures.append({"what": "a second connection to the address reported by an activated connection (Connection::address()) does not reach the service, "
                                                 "unlike every other transport", "result": again[:200]})
+                after = f.get("afterdrop", "")
+                ok3 = False
+                if after and not after.startswith("err:"):
+                    try:
+                        y = canon_reply_stream(unhx(after))
+                        ok3 = len(y) == 1 and "interfaces" in (y[0].get("parameters") or {})
+                    except Exception:
+                        ok3 = False
+                if not ok3:
+                    ck.failures.append({"what": "a connection to an activated service (opened through Connection::address()) was not served after the connection object "
+                                                "that activated the service had been dropped; over every other transport connections are independent of each other",
+                                        "result": after[:200]})
         elif kind == "activation":
             expect = m[2]
             got = a.replace("probe=", "")
